@@ -124,7 +124,7 @@ Definition rets_ok (name : string) (fields : list string) : bool :=
   match find_method name with
   | Some m =>
       forallb (fun s =>
-                 let r := if String.eqb name "Lock" then "r" else gs_r s in
+                 let r := gs_r s in     (* go2coq prints the reply variable as its type *)
                  if list_eq_dec string_dec (gs_rets s)
                       (map (fun f => r ++ "." ++ f) fields ++ [if String.eqb name "Lock" then "err" else "nil"])
                  then true else false)
